@@ -88,6 +88,22 @@ RULE = (
     "without green - every history of length <= 2 (+ the kept / sampled length 3) over {rgb, red, blue, shape} that asks rgb, "
     "'ask a, derive, ask b' for all pairs, the derived-from-derived chains with the question rgb; random: 100/2000 objects of "
     "every kind (two in five with colours that differ), histories biased to rgb and the planes it is made of. "
+    "ROUND H (both tiers). SCANS THAT MISS WHOLE FRAMES (stored scan count 0; the photon streams stop more than a frame before "
+    "the info wave, so num_frames / shape, counted on the info wave, and the reconstructed arrays disagree about the number of "
+    "frames): a fixed 3-frame scan whose streams hold 2 frames (thorough: one whose colours each miss their own number of "
+    "frames) - every history of length <= 2 over all queries and the derivations inside the frames every colour has, 'ask a, "
+    "derive, ask b' and 'derive, ask the derived object a, ask the source b' for all pairs; random 40/800 scans of 2-4 frames "
+    "whose streams end 1..frames-1 whole frames early (all colours alike, or each at its own frame, one complete / absent), "
+    "histories biased to num_frames, shape, images, timestamps, frame ranges (a scan whose reconstruction is a single frame is "
+    "only copied). OBJECTS FROM A FILE: 30/600 random objects built through lk.File.from_h5py(in-memory h5py file).kymos / .scans "
+    "(Kymo/Scan.from_dataset: nominal range from the item's attributes, channels = lazily read datasets fetched anew on every "
+    "access) and F,d curves through FdCurve.from_dataset. TRACK GROUPS THAT ARE WORKED ON: derivations with an EMPTY group as "
+    "an operand (KymoTrackGroup([]) + g, g + empty, acc = empty; acc.extend(g); the empty group from the constructor, an empty "
+    "slice, a filter nothing passes) and derived groups that are edited with the public in-place operations (extend by a group "
+    "/ by one track, remove, filter) inside the step that makes them - for every derivation D and edit list E: [D+E, ask the "
+    "source], [D, D+E, ask object 1, source, object 2], [first track, D of it + 'extend by the rest of the source' (+ a second "
+    "edited D of that), ask every object]; random 60/1200 histories on random groups (a third of the derivations with an empty "
+    "operand, two thirds followed by 1-3 edits taking tracks from any object of the history). "
     "Every step is compared with a freshly built twin (only the ancestor "
     "derivations replayed) and with the Lean state machine. Every array a query of the history hands out (colour plane, full "
     "colour image, timestamps) is written to in place (+= 1; NumPy refuses on read-only arrays) as soon as its answer has been "
@@ -134,8 +150,15 @@ ASSUMPTIONS = [
     "info wave and photon counts share one sampling grid; constant samples per pixel",
     "a truncated photon stream starts no later than the second scan line (one repair reaches it); later starts make "
     "seek_timestamp_next_line drop one more line on every access and reconstruction raise ValueError - not generated",
-    "a scan's photon stream that ends early still covers part of the last frame (otherwise Scan.num_frames, counted on the info "
-    "wave, exceeds the frames of the image and indexing raises - outside this property)",
+    "a scan whose photon streams miss whole frames (Scan.num_frames, counted on the info wave, then exceeds the frames of the "
+    "reconstructed arrays) is asked every query, but derived from only inside the frames every colour has (explicit bounds), and "
+    "only copied when its reconstruction is a single frame: indexing past the reconstruction raises IndexError lazily, at the "
+    "first query of the derived scan - an incomplete export that cannot be sliced is outside this property; in the older random "
+    "streams a short stream still ends inside the last frame",
+    "in-place operations of KymoTrackGroup (extend, remove, filter) are not queries or derivations of the property text; they are "
+    "applied only to a derived group inside the step that makes it (the derived object of that step is the edited group) and are "
+    "the means to OBSERVE the 'free of aliasing' clause: whatever is done to a derived group, its source and the groups derived "
+    "earlier answer as before.  Nothing is asserted about the edited group beyond 'same as on a fresh twin'",
     "flip is applied to unprocessed kymographs with >=2 pixels only (a flipped view calls the view's factory functions "
     "directly; one-pixel kymographs fall back on a pixel time that needs two rows)",
     "NumPy buffer identity is modelled for kymograph images / timestamps under element writes through the handed-out array "
@@ -237,6 +260,8 @@ def cf_make(spec, start=None, stop=None):
     public attributes `start` / `stop` before anything has been asked - the constructor only stores them, and it is what
     Kymo.__getitem__ itself does with the copy it makes.  No private module path (detail.confocal.ConfocalFileProxy /
     ScanMetaData) is needed."""
+    if spec.get("route") == "h5":
+        return cf_make_h5(spec, int(spec["start"] if start is None else start), int(spec["stop"] if stop is None else stop))
     from lumicks.pylake.low_level import create_confocal_object
 
     dt = spec["dt"]
@@ -255,6 +280,48 @@ def cf_make(spec, start=None, stop=None):
     o.start = int(spec["start"] if start is None else start)
     o.stop = int(spec["stop"] if stop is None else stop)
     return o
+
+
+_H5 = {}  # in-memory Bluelake files of the "h5" route, one per object description (kept open for the whole run)
+
+
+def cf_make_h5(spec, start, stop):
+    """a NEW kymograph / scan the way users get one: from a Bluelake HDF5 file (here an in-memory h5py file holding the info
+    wave, the photon-count channels and the item's JSON with its 'Start time (ns)' / 'Stop time (ns)' attributes) through the
+    public `lk.File.from_h5py(...).kymos / .scans` - i.e. `Kymo.from_dataset` / `Scan.from_dataset` - so that the nominal
+    [start, stop) comes from the file and every channel is a lazily read h5py dataset that is looked up anew on every access"""
+    import h5py
+    import lumicks.pylake as lk
+
+    dt = spec["dt"]
+    key = json.dumps({k: v for k, v in spec.items() if k not in ("start", "stop")}, sort_keys=True)
+    f = _H5.get(key)
+    if f is None:
+        f = _H5[key] = h5py.File(f"c19-confocal-{len(_H5)}.h5", "w", driver="core", backing_store=False)
+        f.attrs["Bluelake version"], f.attrs["File format version"] = "verif", 2
+        f.attrs["Experiment"], f.attrs["Description"], f.attrs["GUID"], f.attrs["Export time (ns)"] = "", "", "verif", -1
+
+        def put(path, data, first, dtype):
+            ds = f.create_dataset(path, data=np.asarray(data, dtype=dtype))
+            ds.attrs["Kind"], ds.attrs["Sample rate (Hz)"] = "Continuous", 1e9 / dt
+            ds.attrs["Start time (ns)"], ds.attrs["Stop time (ns)"] = int(first), int(first + len(data) * dt)
+
+        put("Info wave/Info wave", spec["iw"], T0, np.uint8)
+        for c in bc.COLORS:
+            ch = spec["chans"].get(c)
+            if ch and ch[1]:  # an absent colour: no dataset (the file answers with the empty slice)
+                put("Photon count/" + c.capitalize(), ch[1], T0 + ch[0] * dt, np.uint32)
+    if spec["kind"] == "kymo":
+        field, axes = "Kymograph", [(0, spec["P"], spec.get("px_nm", 125.0))]
+    else:
+        field, axes = "Scan", [(spec["fast"], spec["P"], 125.0), (spec["slow"], spec["L"], 250.0)]
+    item = f.create_dataset(field + "/obj", data=bc.confocal_json(axes, spec.get("scan_count", 0)))
+    item.attrs["Start time (ns)"], item.attrs["Stop time (ns)"] = np.int64(start), np.int64(stop)
+    try:
+        file = lk.File.from_h5py(f)
+        return (file.kymos if spec["kind"] == "kymo" else file.scans)["obj"]
+    finally:
+        del f[field + "/obj"]  # the object keeps name, file, start, stop and the parsed metadata
 
 
 al._MAKE, al._QUIET = cf_make, bc.quiet
@@ -560,6 +627,18 @@ class FdFamily(PureFamily):
             downsampled_force2=mk(spec["f2"], "f2"), downsampled_force1=mk(spec["f1"], "f1"),
             downsampled_force1x=mk(spec["f1"], "f1x"), distance1=mk(spec["d1"], "d1"), distance2=mk(spec["d2"], "d2"),
         )
+        if spec.get("h5"):
+            # the way a Bluelake file makes its F,d curves: FdCurve.from_dataset(<item of the "FD Curve" group>, file) - the
+            # time range comes from the item's attributes
+            import h5py
+
+            if getattr(self, "_h5", None) is None:
+                self._h5 = h5py.File(f"c19-fd-{id(self)}.h5", "w", driver="core", backing_store=False)
+            if "FD Curve/fd" in self._h5:
+                del self._h5["FD Curve/fd"]
+            item = self._h5.create_dataset("FD Curve/fd", data="")
+            item.attrs["Start time (ns)"], item.attrs["Stop time (ns)"] = np.int64(spec["start"]), np.int64(spec["stop"])
+            return FdCurve.from_dataset(item, file)
         return FdCurve(file, spec["start"], spec["stop"], "fd")
 
     def query(self, o, name):
@@ -739,10 +818,57 @@ class TrackFamily(PureFamily):
             return [[np.asarray(a, dtype=float) for a in t.msd(2)] if len(t) > 3 else None for t in o]
         raise KeyError(name)
 
+    def empty(self, o, how):
+        """an EMPTY track group, made the way callers make one: the constructor on an empty list (the accumulation idiom
+        `all_tracks = KymoTrackGroup([])`), an empty slice of the group at hand, a filter nothing passes"""
+        import lumicks.pylake as lk
+        from lumicks.pylake.kymotracker.kymotrack import KymoTrackGroup
+
+        if how == "new":
+            return KymoTrackGroup([])
+        if how == "slice":
+            return o[0:0]
+        if how == "filter":
+            return lk.filter_tracks(o, 10**6)
+        raise KeyError(how)
+
+    def edit(self, new, e, objs):
+        """one of KymoTrackGroup's PUBLIC in-place operations on the group a derivation has just made (it has not been handed
+        to the history yet: the derived object of this step is the edited group, a function of the derivation path).  What
+        the group was derived from, and every group derived earlier, must answer afterwards what they answered before."""
+        n = e[0]
+        if n == "remove":
+            if len(new):
+                new.remove(new[e[1] % len(new)])
+        elif n == "extend":
+            if objs[e[1]] is not None:
+                new.extend(objs[e[1]][e[2] : e[3]])
+        elif n == "extend_track":
+            src = objs[e[1]]
+            if src is not None and len(src):
+                new.extend(src[e[2] % len(src)])  # a single KymoTrack
+        elif n == "filter":
+            new.filter(minimum_length=e[1])
+        else:
+            raise KeyError(n)
+
     def derive(self, o, op, objs):
+        if isinstance(op[-1], dict):
+            new = self.derive(o, op[:-1], objs)
+            for e in op[-1]["edit"]:
+                self.edit(new, e, objs)
+            return new
         import lumicks.pylake as lk
 
         n = op[2]
+        if n == "radd_empty":  # the empty group on the LEFT: `KymoTrackGroup([]) + tracks`
+            return self.empty(o, op[3]) + o
+        if n == "add_empty":  # the empty group on the right
+            return o + self.empty(o, op[3])
+        if n == "extend_empty":  # `acc = KymoTrackGroup([]); acc.extend(tracks)`
+            acc = self.empty(o, op[3])
+            acc.extend(o)
+            return acc
         if n == "filter":
             return lk.filter_tracks(o, op[3])
         if n == "slice":
@@ -839,6 +965,15 @@ def created_id(hist, x):
     return 1 + sum(1 for o in hist[:x] if o[0] == "d")
 
 
+def refs(op):
+    """ids of the OTHER objects a derivation step uses besides its target: the second operand of div_other / sub / add, and
+    the groups an in-place edit of the new track group takes tracks from"""
+    out = [a for a in op[3:4] if op[2] in ("div_other", "sub", "add") and isinstance(a, int)]
+    if isinstance(op[-1], dict):
+        out += [e[1] for e in op[-1]["edit"] if e[0] in ("extend", "extend_track")]
+    return out
+
+
 def ancestors(hist, t):
     anc = set()
     while True:
@@ -848,8 +983,7 @@ def ancestors(hist, t):
         x = next(i for i, o in enumerate(hist) if o[0] == "d" and created_id(hist, i) == t)
         t = hist[x][1]
         # derivations that take a second object (div_other, sub, add) also need that object's ancestry
-        extra = [a for a in hist[x][3:4] if hist[x][2] in ("div_other", "sub", "add") and isinstance(a, int)]
-        for e in extra:
+        for e in refs(hist[x]):
             anc |= ancestors(hist, e)
 
 
@@ -857,8 +991,9 @@ def run_twin(case, n):
     hist = case["hist"]
     op = hist[n]
     need = ancestors(hist, op[1])
-    if op[0] == "d" and op[2] in ("div_other", "sub", "add") and isinstance(op[3], int):
-        need |= ancestors(hist, op[3])
+    if op[0] == "d":
+        for e in refs(op):
+            need |= ancestors(hist, e)
     objs = [build(case)]
     for x in range(n):
         o = hist[x]
@@ -1507,6 +1642,10 @@ class Tracker:
             npx = sum(1 for c in obj["iw"][: max(keep, 0)] if c == 2)
             nf = max(1, -(-npx // (obj["P"] * obj["L"])))
             self.short = keep < len(obj["iw"])
+            # the photon streams hold ONE frame while the info wave counts several: the reconstruction is squeezed to a
+            # single frame and every index expression built for a multi-frame scan raises IndexError (an incomplete export
+            # that cannot be sliced: not this property's subject) - such a scan is only copied
+            self.flat = nf == 1 and sum(1 for c in obj["iw"] if c == 2) > obj["P"] * obj["L"]
             h, w = (obj["L"], obj["P"]) if obj["fast"] < obj["slow"] else (obj["P"], obj["L"])
             self.objs = [{"nf": nf, "h": h, "w": w}]
         else:
@@ -1616,6 +1755,8 @@ class Tracker:
                 m["root"] = False
         elif self.fam == "scan":
             choice = rng.choice(["copy", "frames", "frame", "framecrop", "cropxy"])
+            if getattr(self, "flat", False):
+                choice = "copy"
             nf, h, w = m["nf"], m["h"], m["w"]
             if choice == "copy":
                 op = ["d", i, "copy"]
@@ -2111,6 +2252,138 @@ def random_confocal(rng):
     return "scan", scan_obj(P, L, frames, k, lead_in, dead, fd, fast, slow, **kw), mode
 
 
+TRACK_EMPTIES = ("new", "slice", "filter")
+TRACK_EDITS = (
+    [["remove", 0]],
+    [["remove", -1], ["remove", 0]],
+    [["extend_track", 0, -1]],  # refused (ValueError) when the track is in the group already
+    [["remove", 0], ["extend", 0, 0, 1]],  # take the first track out and put it back at the end
+    [["filter", 4]],
+)
+
+
+def edit_histories(quick):
+    """derived track groups that are WORKED ON (public in-place operations: extend by a group / by a single track, remove,
+    filter) as soon as they have been made, with an EMPTY group as an operand of the arithmetic among the derivations
+    (`KymoTrackGroup([]) + tracks`, `tracks + empty`, `acc = empty; acc.extend(tracks)`; the empty group from the constructor,
+    an empty slice, a filter nothing passes).  For every derivation D, edit list E and query a:
+      [D+E, ask the source a]                                     the source does not notice
+      [D, D+E, ask object 1 a, ask the source a, ask object 2 a]  neither does a group derived earlier the same way
+      [first track, D of it + 'extend by the rest of the source', ask object 1 a, ask the source a, ask object 2 a]"""
+    ds = [[n, how] for n in ("radd_empty", "extend_empty", "add_empty") for how in (TRACK_EMPTIES[:1] if quick else TRACK_EMPTIES)]
+    ds += [["copy"], ["slice", None, 2], ["add_slices"], ["filter", 4]] + ([] if quick else [["refine", 0.5], ["add", 0]])
+    out = []
+    for d in ds:
+        for e in TRACK_EDITS:
+            for a in ("state", "len"):
+                out.append([["d", 0] + d + [{"edit": e}], ["q", 0, a]])
+            out.append([["d", 0] + d, ["d", 0] + d + [{"edit": e}], ["q", 1, "state"], ["q", 0, "state"], ["q", 2, "state"]])
+        grow = [{"edit": [["extend", 0, 1, None]]}]
+        out.append([["d", 0, "slice", None, 1], ["d", 1] + d + grow, ["q", 1, "state"], ["q", 0, "state"], ["q", 2, "len"]])
+        out.append([["d", 0, "slice", None, 1], ["d", 1] + d + grow, ["d", 2] + d + [{"edit": [["remove", 0]]}], ["q", 2, "len"],
+                    ["q", 1, "len"], ["q", 0, "len"], ["q", 3, "state"]])
+    return out
+
+
+def random_edit_history(rng, obj, length):
+    """track groups: derivations (one in three with an empty operand), two in three followed by 1-3 in-place edits of the
+    new group, and queries on the source, the newest and any object"""
+    tr = Tracker("tracks", obj)
+    qs = ["state", "state", "len", "len", "duration", "seconds"]
+    hist = []
+    for _ in range(length):
+        n = len(tr.objs)
+        i = rng.choice([0, n - 1, rng.randint(0, n - 1)])
+        if n < 5 and (n == 1 or rng.chance(0.4)):
+            if rng.chance(0.35):
+                op = ["d", i, rng.choice(["radd_empty", "radd_empty", "extend_empty", "add_empty"]), rng.choice(TRACK_EMPTIES)]
+                tr.objs.append({})
+            else:
+                op = tr.derive(rng, i)
+            if rng.chance(0.67):
+                edits = []
+                for _ in range(rng.randint(1, 3)):
+                    kind = rng.choice(["remove", "remove", "extend", "extend", "extend_track", "filter"])
+                    j = rng.randint(0, n - 1)
+                    if kind == "remove":
+                        edits.append(["remove", rng.randint(-1, 3)])
+                    elif kind == "extend":
+                        a = rng.choice([None, 0, 1, 2])
+                        edits.append(["extend", j, a, rng.choice([None, 1, 2, -1])])
+                    elif kind == "extend_track":
+                        edits.append(["extend_track", j, rng.randint(-1, 3)])
+                    else:
+                        edits.append(["filter", rng.randint(1, 5)])
+                op = op + [{"edit": edits}]
+            hist.append(op)
+        else:
+            hist.append(["q", i, rng.choice(qs)])
+    return hist
+
+
+def missing_frames_objects(quick):
+    """fixed scans (stored scan count 0: the number of frames is counted lazily on the info wave) whose photon streams
+    stop more than one whole frame before the info wave does: the images / timestamps reconstructed from the photon
+    streams hold fewer frames than num_frames / shape count on the info wave - two sources for 'the number of frames'"""
+    full = scan_obj(2, 2, 3, 1, 1, 1, 2, 0, 1)
+    bpos = [j for j, c in enumerate(full["iw"]) if c == 2]
+    keep = bpos[2 * 4] - 1  # the last frame and the dead time before it are missing
+    objs = [("scan", scan_obj(2, 2, 3, 1, 1, 1, 2, 0, 1, short={c: keep for c in bc.COLORS}))]
+    if not quick:
+        # every colour misses its own number of frames (red two and a bit, green one and a bit, blue nothing); fast axis 1
+        objs.append(("scan", scan_obj(2, 2, 3, 2, 0, 1, 1, 1, 0, short={"red": bpos[4] * 2 - 1, "green": bpos[8] * 2 - 2})))
+    return objs
+
+
+def missing_frames_histories(fam, obj, quick):
+    """every history of length <= 2 over all queries and the derivations that stay inside the frames every colour has,
+    and 'ask a, derive, ask b' / 'derive, ask the derived object a, ask the source b' for all query pairs"""
+    tr = Tracker(fam, obj)
+    qs = tr.queries()
+    derivs = [["frames", 0, 1], ["cropxy", 0, 1, 0, 1], ["copy"]] + ([["frames", 1, 2]] if tr.objs[0]["nf"] >= 2 else [])
+    out = exhaustive_histories(fam, obj, qs, [(lambda t, h, d=d: ["d", t] + d) for d in derivs[:3]], 2)
+    pair_q = ["image.r", "ts.mean", "lineRanges", "numFrames", "shape", "start"] if quick else qs
+    for d in derivs:
+        for a in pair_q:
+            for b in pair_q:
+                out.append([["q", 0, a], ["d", 0] + d, ["q", 1, b]])
+                out.append([["d", 0] + d, ["q", 1, a], ["q", 0, b]])
+    return out
+
+
+def random_scan_missing_frames(rng):
+    """a continuously recorded scan of 2-4 frames whose photon streams end one or more WHOLE frames (and a bit) before the
+    info wave: all colours at the same sample, or every colour at its own (one may be complete or absent)"""
+    P, L, frames, k = rng.randint(2, 3), rng.randint(2, 3), rng.randint(2, 4), rng.randint(1, 2)
+    fast, slow = rng.choice([(0, 1), (1, 0), (0, 2), (2, 1)])
+    lead_in, dead, fd = rng.randint(0, 2), rng.randint(0, 2), rng.randint(0, 3)
+    full = bc.infowave(P, L * frames, k, lead_in=lead_in, dead=dead, L=L, frame_dead=fd, tail=1)
+    bpos = [j for j, c in enumerate(full) if c == 2]
+    per = P * L
+
+    def end():
+        f = rng.randint(1, frames - 1)  # the first frame that is not complete; frames before it are
+        lo, hi = bpos[(f - 1) * per + per - 1] + 1, bpos[f * per + per - 1]  # after the last pixel of frame f-1 .. inside frame f
+        return rng.choice([lo, bpos[f * per] - 1 if bpos[f * per] - 1 >= lo else lo, rng.randint(lo, hi)])
+
+    kw = {"salt": rng.randint(0, 9), "dt": rng.choice([12800, 1000])}
+    early = {c: rng.choice([0, 0, 1, 2]) for c in bc.COLORS}
+    if rng.chance(0.6):
+        e = end()
+        ends = {c: e for c in bc.COLORS}
+    else:
+        ends = {c: end() for c in bc.COLORS}
+        odd = rng.choice(list(bc.COLORS))
+        what = rng.choice(["short", "complete", "absent"])
+        if what == "complete":
+            ends[odd] = len(full)
+        elif what == "absent":
+            kw["absent"] = (odd,)
+    kw["early"] = early
+    kw["short"] = {c: ends[c] + early[c] for c in bc.COLORS if ends[c] < len(full)}
+    return "scan", scan_obj(P, L, frames, k, lead_in, dead, fd, fast, slow, **kw), "missing-frames"
+
+
 def cases(tier, rng):
     quick = tier == "quick"
     import os
@@ -2326,6 +2599,42 @@ def cases(tier, rng):
                        early={c: sub.randint(0, 2) for c in bc.COLORS} if sub.chance(0.3) else None)
         yield {"stream": "alias-random", "family": "alias", "obj": obj, "hist": al.random_hist(sub, P, lines, sub.randint(3, 12)),
                "subseed": i}
+
+    # ---- round H (placed and forked after everything above).  (1) scans whose photon streams miss WHOLE frames: the number
+    # of frames the info wave counts (num_frames, shape) differs from the number of frames of every reconstructed array
+    for fam, obj in missing_frames_objects(quick):
+        for h in missing_frames_histories(fam, obj, quick):
+            yield {"stream": "small-scope-missing-frames", "family": fam, "obj": obj, "hist": h}
+    r13 = rng.fork("c19-random-missing-frames")
+    for i in range(40 if quick else 800):
+        sub = r13.fork(i)
+        fam, obj, mode = random_scan_missing_frames(sub)
+        qs = ["numFrames", "shape", "image.r", "image.g", "ts.mean", "lineRanges"] * 2 + Tracker(fam, obj).queries()
+        yield {"stream": "random-missing-frames", "family": fam, "obj": obj, "subseed": i, "mode": mode,
+               "hist": random_history(sub, fam, obj, sub.randint(2, 8), 0.25, qs=qs)}
+    # (1b) objects that come out of a FILE: kymographs / scans through lk.File.from_h5py(...).kymos / .scans (from_dataset; the
+    # channels are lazily read h5py datasets looked up anew on every access), F,d curves through FdCurve.from_dataset
+    r15 = rng.fork("c19-random-h5")
+    for i in range(30 if quick else 600):
+        sub = r15.fork(i)
+        if sub.chance(0.2):
+            obj = dict(fd_obj(sub), h5=True)
+            yield {"stream": "random-h5", "family": "fd", "obj": obj, "subseed": i, "hist": random_history(sub, "fd", obj, sub.randint(2, 8), 0.35)}
+            continue
+        fam, obj, mode = random_confocal(sub) if sub.chance(0.7) else random_confocal_colours(sub)
+        obj = dict(obj, route="h5")
+        yield {"stream": "random-h5", "family": fam, "obj": obj, "subseed": i, "mode": mode,
+               "hist": random_history(sub, fam, obj, sub.randint(2, 8))}
+    # (2) track groups: empty operands of the arithmetic, and derived groups that are edited in place once they are made
+    tracks_fixed = pure_scope[-1][1]
+    for h in edit_histories(quick):
+        yield {"stream": "small-scope-edits", "family": "tracks", "obj": tracks_fixed, "hist": h}
+    r14 = rng.fork("c19-random-edits")
+    for i in range(60 if quick else 1200):
+        sub = r14.fork(i)
+        obj = tracks_obj(sub)
+        yield {"stream": "random-edits", "family": "tracks", "obj": obj, "subseed": i,
+               "hist": random_edit_history(sub, obj, sub.randint(3, 8))}
 
 
 def fix_second_ref(o, nd, shift):
